@@ -17,6 +17,8 @@ from __future__ import absolute_import
 from __future__ import division
 from __future__ import print_function
 
+import numbers
+
 from . import utils
 import numpy as np
 import tensorflow as tf
@@ -501,7 +503,14 @@ def verify_hyperparameters(lattice_sizes=None,
     ValueError: If units < 1.
     ValueError: If num_terms < 1.
     ValueError: If len(monotonicities) does not match number of inputs.
+    ValueError: If lattice_sizes, units or num_terms is not an integer.
   """
+  for name, value in (("lattice_sizes", lattice_sizes), ("units", units),
+                      ("num_terms", num_terms)):
+    if value is not None and (isinstance(value, bool) or
+                              not isinstance(value, numbers.Integral)):
+      raise ValueError("'%s' must be an integer. Given: %s" % (name, value))
+
   if lattice_sizes is not None and lattice_sizes < 2:
     raise ValueError("Lattice size must be at least 2. Given: %s" %
                      lattice_sizes)
